@@ -123,6 +123,8 @@ def body_rt(cube, **kw):
     with notrace():
         g.add_attacker(b, attacker_id=3)
         g.add_attacker(a, attacker_id=ida)
+        if ida is not None and a.id != ida:
+            return 'add_attacker(attacker_id=%r) assigned id %r' % (ida, a.id)
     for i in range(n):
         if kw.get('ra%d' % i, False):
             a.compromise(nodes[i])
